@@ -141,7 +141,7 @@ package api
 // The two specifications are inverse on well-formed pins, up to the documented lossy fields (user allocations are not
 // stored, expiry keeps whole seconds, the mode is re-derived from the depth). The hypotheses in libraryInverses are the
 // assumed (unchecked) inverse laws of go-cid, go-libp2p-core/peer, go-multiaddr and package time.
-//@ spec func libraryInverses() bool = (forall c cid.Cid :: c != cid.Undef ==> castErr(cidBytes(c)) == nil && castCid(cidBytes(c)) == c) && castErr(cidBytes(cid.Undef)) != nil && (forall bs []byte :: len(bs) == 0 ==> castErr(bs) != nil) && (forall id peer.ID :: libfn("peer.IDFromBytes", 0, libfn("peer.ID.Marshal", 0, id)) == id) && (forall m multiaddr.Multiaddr :: maEqual(libfn("multiaddr.NewMultiaddrBytes", 0, libfn("multiaddr.Multiaddr.Bytes", 0, m)), m)) && (forall t time.Time, n int :: t == unixnano(n) ==> unixSecs(t) * 1000000000 <= n && n < (unixSecs(t) + 1) * 1000000000) && (1 << 0) == 1 && (1 << 1) == 2 && (1 << 2) == 4 && (1 << 3) == 8 && (1 << 4) == 16
+//@ spec func libraryInverses() bool = (forall c cid.Cid :: c != cid.Undef ==> castErr(cidBytes(c)) == nil && castCid(cidBytes(c)) == c) && castErr(cidBytes(cid.Undef)) != nil && (forall bs []byte :: len(bs) == 0 ==> castErr(bs) != nil) && (forall id peer.ID :: libfn("peer.IDFromBytes", 0, libfn("peer.ID.Marshal", 0, id)) == id) && (forall m multiaddr.Multiaddr :: maEqual(libfn("multiaddr.NewMultiaddrBytes", 0, libfn("multiaddr.Multiaddr.Bytes", 0, m)), m)) && (forall t time.Time, n int :: t == unixnano(n) ==> unixSecs(t) * 1000000000 <= n && n < (unixSecs(t) + 1) * 1000000000)
 //@ spec func wellFormedPin(p Pin) bool = knownType(p.Type) && p.Cid != cid.Undef && (p.Reference != nil ==> *p.Reference != cid.Undef) && p.Mode == ite(p.MaxDepth == 0, PinModeDirect, PinModeRecursive) && (p.ExpireAt == zerotime() || p.ExpireAt == unixZero || unixSecs(p.ExpireAt) > 0)
 //@ spec func samePin(p Pin, q Pin) bool = q.Cid == p.Cid && q.Type == p.Type && len(q.Allocations) == len(p.Allocations) && (forall i int :: 0 <= i && i < len(p.Allocations) ==> q.Allocations[i] == p.Allocations[i]) && q.MaxDepth == p.MaxDepth && (q.Reference == nil <==> p.Reference == nil) && (p.Reference != nil ==> *q.Reference == *p.Reference) && q.ReplicationFactorMin == p.ReplicationFactorMin && q.ReplicationFactorMax == p.ReplicationFactorMax && q.Name == p.Name && q.ShardSize == p.ShardSize && q.Metadata == p.Metadata && q.PinUpdate == p.PinUpdate && q.Mode == p.Mode && len(q.Origins) == len(p.Origins) && (forall i int :: 0 <= i && i < len(p.Origins) ==> maEqual(q.Origins[i], p.Origins[i])) && (p.ExpireAt == zerotime() || p.ExpireAt == unixZero ==> q.ExpireAt == zerotime()) && (p.ExpireAt != zerotime() && p.ExpireAt != unixZero ==> unixSecs(q.ExpireAt) == unixSecs(p.ExpireAt))
 //@ lemma pin_protobuf_roundtrip: forall p Pin, b pb.Pin, o pb.PinOptions, q Pin, q0 Pin :: libraryInverses() && wellFormedPin(p) && q0.PinUpdate == cid.Undef && q0.ExpireAt == zerotime() && pbEncodes(b, o, p) && pbDecodes(b, o, q, q0) ==> samePin(p, q)
